@@ -57,6 +57,8 @@ def _post(base, recs, stats):
     ks = list(range(1, nfev + 1))
     if recs[0].case.get("stops") == "some":
         ks = sorted({1, 2, nfev // 2, nfev - 1, nfev} & set(ks))
+    elif isinstance(recs[0].case.get("stops"), list):
+        ks = [k for k in recs[0].case["stops"] if k in ks]
     d0 = _evalseq(rec0)
     for k in ks:
         c = dict(base)
@@ -137,6 +139,15 @@ def _stats(rec, table, stats):
 
 
 def run_case(case):
+    cb = case.get("callback") or {}
+    if cb.get("behav") != "passive":
+        # replay of one derived run (stopped at k / overwriting / keeping): rebuild its passive base and re-derive
+        base = dict(case)
+        base["callback"] = dict(cb, behav="passive")
+        base.pop("dev", None)
+        if cb.get("behav") == "stop":
+            base["stops"] = [int(cb["k"])]
+        return e1prop.run_case_generic(base, oracles.c20, extra_stats=_stats, post=_post)
     return e1prop.run_case_generic(case, oracles.c20, extra_stats=_stats, post=_post)
 
 
